@@ -150,7 +150,15 @@ func (prop) Generate(rng *sim.Rng, tier string, runIndex int) driver.Scenario {
 		case 1: // file-vs-directory clash
 			sc.Entries = append(sc.Entries, Entry{Name: top + "clash", T: "f", Len: 3}, Entry{Name: top + "clash/x", T: "f", Len: 3})
 		case 2:
-			sc.Entries = append(sc.Entries, Entry{Name: top + "link", T: "l", Link: []string{"a", "../../../../outside", "/etc/passwd"}[rng.Intn(3)]})
+			// a link entry, sometimes followed by an entry whose path goes through it
+			// (every NAME passes a prefix check; honouring the link would not)
+			tgt := []string{"a", "../../../../outside", "../../sdk-other", "."}[rng.Intn(4)]
+			sc.Entries = append(sc.Entries, Entry{Name: top + "link", T: "l", Link: tgt})
+			if rng.Bool() {
+				sc.Entries = append(sc.Entries, Entry{Name: top + "link/through.txt", T: "f", Len: 5, Fill: 0x54})
+			} else if rng.Bool() {
+				sc.Entries = append(sc.Entries, Entry{Name: top + "link", T: "f", Len: 6, Fill: 0x55})
+			}
 		case 3:
 			sc.Entries = append(sc.Entries, Entry{Name: top + "hard", T: "h", Link: top + "a"})
 		case 4:
@@ -234,6 +242,7 @@ func classify(sc *Scenario) (k klass, want map[string][]byte, wantDirs map[strin
 	want = map[string][]byte{}
 	wantDirs = map[string]bool{}
 	isFile := map[string]bool{}
+	linkNames := map[string]bool{}
 	for _, e := range sc.Entries {
 		if e.Name == "" {
 			k.illform = true
@@ -254,6 +263,18 @@ func classify(sc *Scenario) (k klass, want map[string][]byte, wantDirs map[strin
 			continue
 		}
 		rel := strings.TrimPrefix(strings.TrimPrefix(c, "/d"), "/")
+		// a path that is, or goes through, a link entry: what happens is up to the extractor
+		for ln := range linkNames {
+			if rel == ln || strings.HasPrefix(rel, ln+"/") {
+				k.illform = true
+			}
+		}
+		if e.T == "l" || e.T == "h" {
+			if isFile[rel] || wantDirs[rel] {
+				k.illform = true
+			}
+			linkNames[rel] = true
+		}
 		switch e.T {
 		case "h":
 			// a hard link must name a regular file that precedes it
@@ -743,6 +764,11 @@ func (prop) Run(scx driver.Scenario, ch *sim.Choices, keep bool) *driver.Result 
 			[]string{"quiescent", "step cap", "aborted"}[s.End], s.Step, sc.Format, kl.hostile, kl.illform, cls, det))
 	}
 	return res
+}
+
+// Cleanup removes this process's sandbox skeleton.
+func (prop) Cleanup() {
+	os.RemoveAll(filepath.Join(sandboxBase(), fmt.Sprintf("verif-c20-%d", os.Getpid())))
 }
 
 func errText(w *simos.World, err error) string {
